@@ -265,6 +265,14 @@ func replRun(tr *tracer.T, rng *rand.Rand, nOps int, class int, variant int) {
 				die("leader put: %v", err)
 			}
 			w.rev, w.val, w.rs = r.Header.Revision, 1, []m.Resp{{T: "put"}}
+		case x == 9:
+			// a SINGLE-key delete (after range deletes: the stream must not hand the follower a range)
+			w.cmd = m.Cmd{T: "DEL", K: k, Count: true}
+			r, err := leader.Delete(ctx, &regattapb.DeleteRangeRequest{Table: []byte(tbl), Key: k, Count: true})
+			if err != nil {
+				die("leader delete: %v", err)
+			}
+			w.rev, w.val, w.rs = r.Header.Revision, 1, []m.Resp{{T: "del", Deleted: r.Deleted}}
 		case x < 4:
 			w.cmd = m.Cmd{T: "DEL", K: []byte("a"), End: m.End{Has: true, B: []byte("c")}, Count: true}
 			r, err := leader.Delete(ctx, &regattapb.DeleteRangeRequest{Table: []byte(tbl), Key: []byte("a"), RangeEnd: []byte("c"), Count: true})
